@@ -11,7 +11,7 @@ Driver of C10 (stateful). Requests (see `harness/c10.py`):
   render <o> <kind> <k|g> <mode> <top> <subs> <lines>
                                   o = object number (ignored here), kind obj|rec|hcmd, mode c (coloured) n (no colour) l / m (line-wise coloured / no colour), L / M (whole text first, then the lines)
   res <r> <o> <k|g> <c|n> <top> <subs> <lines>   r = obj.ch_text(...) (lazy: only the palette is made)
-  str <r>                         str(r) (memoised)
+  str <r> <s|p|n>                 str(r) / r.plain_text() / len(r): the whole text is made once and memoised
   iter <i> <r> / next <i> <n>     it = iter(r) / the next n lines of it
   setfmt <o> <fmt>                table.fmt = fmt (layout only: acknowledged)
   gp <i> / gpi <syntax id>        str(global_palette.<accessor i>("x")) / str(global_palette[id]("x"))
@@ -136,11 +136,13 @@ def handle (s : State) (line : String) : State × String :=
       | .ok s' => (s', "ok")
       | .error e => (s, "err " ++ e.name)
     | _, _, _, _ => (s, "bad-op")
-  | ["str", r] =>
+  | ["str", r, how] =>
     match r.toNat? with
     | some r =>
       match strRes cfg reuseAlloc r s with
-      | .ok (s', w) => (s', "ok " ++ showCps (strOf w))
+      | .ok (s', w) =>
+        (s', if how = "n" then "ok " ++ toString (plainOf w).length
+             else if how = "p" then "ok " ++ showCps (plainOf w) else "ok " ++ showCps (strOf w))
       | .error e => (s, "err " ++ e.name)
     | none => (s, "bad-op")
   | ["iter", i, r] =>
